@@ -427,8 +427,25 @@ def check(ctx):
     rk = [norm(a) for a in ctor[0].args] if ctor else []
     ctx.inst('R6', w, 'param-state-keys', wk == {'is_stored': 'param.is_stored', 'default_value': 'param.default_value', 'stored_value': 'param.stored_value'} and
              rk == ["param['is_stored']", "param['default_value']", "param['stored_value']"], 'state written %s, rebuilt from %s (namedtuple order is_stored, default_value, stored_value)' % (wk, rk))
-    pt = fold_in(m.func('cflib/crazyflie/param.py', 'Param.__init__'), m.mod('cflib/crazyflie/param.py').consts['PersistentParamState'].args[1])
+    from .c06 import request_released_before_notification
+    memk = m.cls('cflib/crazyflie/mem/__init__.py', 'Memory')
+    request_released_before_notification(ctx, 'R1', memk.method('_handle_chan_read'), 'self._read_requests', ('self.mem_read_cb.call', 'self.mem_read_failed_cb.call'))      # the second read of a two-part image is made from inside new_data (shared with C06.R4)
+    pmod = m.mod('cflib/crazyflie/param.py')
+    nt = pmod.consts.get('PersistentParamState')
+    rewrites = []
+    if nt is None and 'PersistentParamState' in pmod.classes:
+        # a class on top of the named tuple: the fields are those of its base - and stay what the caller passed only if the class does
+        # not construct or read them its own way
+        k_ = pmod.cls('PersistentParamState')
+        bases = [b_ for b_ in k_.node.bases if isinstance(b_, ast.Call) and dotted(b_.func) in ('namedtuple', 'collections.namedtuple')]
+        nt = bases[0] if len(bases) == 1 else None
+        rewrites = sorted(n_ for n_ in k_.methods if n_ in ('__new__', '__init__', '__getattribute__', '__getattr__', '__iter__', '__getitem__', '_replace', '_asdict') or
+                          n_ in ('is_stored', 'default_value', 'stored_value'))
+    ctx.need(isinstance(nt, ast.Call) and len(nt.args) >= 2, 'PersistentParamState: named tuple definition not found')
+    pt = fold_in(m.func('cflib/crazyflie/param.py', 'Param.__init__'), nt.args[1])
     ctx.inst('R6', ('cflib/crazyflie/param.py', ''), 'param-state-order', pt == 'is_stored default_value stored_value', 'PersistentParamState fields: %s' % pt)
+    ctx.inst('R6', ('cflib/crazyflie/param.py', ''), 'param-state-is-a-plain-record', not rewrites,
+             'PersistentParamState holds the three values it was given (a file round trip rebuilds it from them); it redefines %s' % rewrites)
 
     # =========================== R8: write-only LED timing image (shared with C13.R5) ==========
     from .c13 import led_timing_rules
